@@ -146,6 +146,9 @@ func c08Gen(r *Rng, i int) *Sx {
 		cids = []string{"c1"}
 	}
 	nwill := 0
+	// a keep-alive timeout and a 1 s timer (will delay or session expiry of 1 s) never meet in one scenario: both
+	// would fire inside the same (sleep 1800) and the order of their effects is decided by the real clock
+	anyKA, anyOneSec := false, cfgSE == 1 // a configured session expiry of 1 s makes every stored session a 1 s timer
 	// client id -> delay of a will that may be pending for it
 	maybePending := map[string]int{}
 	nextCid := 3
@@ -177,6 +180,9 @@ func c08Gen(r *Rng, i int) *Sx {
 		sei, delay := -1, -1
 		if s.ver == 5 {
 			sei = Pick(r, []int{-1, 0, 1, 100, 100, 100, 4294967295})
+			if sei == 1 && anyKA {
+				sei = 100
+			}
 		}
 		e := 0 // effective session expiry
 		if s.ver == 5 {
@@ -213,6 +219,9 @@ func c08Gen(r *Rng, i int) *Sx {
 				}
 				if r.Chance(2, 3) {
 					delay = Pick(r, []int{0, 1, 1, 1, 100, 100})
+					if delay == 1 && anyKA {
+						delay = 100
+					}
 					wp = append(wp, K("willdelay", I(delay)))
 				}
 			}
@@ -220,8 +229,12 @@ func c08Gen(r *Rng, i int) *Sx {
 				K("retain", Bool(retain)), K("props", wp...))
 		}
 		ka := 0
-		if r.Chance(1, 20) && delay != 1 && e != 1 {
+		if delay == 1 || e == 1 {
+			anyOneSec = true
+		}
+		if r.Chance(1, 20) && !anyOneSec {
 			ka = 1
+			anyKA = true
 		}
 		items = append(items, K("keepalive", I(ka)))
 		if will != nil {
@@ -330,9 +343,13 @@ func c08Gen(r *Rng, i int) *Sx {
 					if r.Chance(1, 2) && s.ka == 0 && s.e > 0 {
 						// (a non-zero Session Expiry Interval in DISCONNECT is a protocol error when the CONNECT one was 0)
 						v := Pick(r, []int{0, 1, 1, 100, 100})
+						if v == 1 && anyKA {
+							v = 100
+						}
 						props = append(props, K("sei", I(v)))
 						if v == 1 {
 							s.oneSec = true
+							anyOneSec = true
 						}
 					}
 				}
